@@ -236,6 +236,38 @@ theorem environCopies_balanced : ∀ (n i : Nat),
     simp only [environCopies, balancedFrom, hundo, hacc, ih (i + 1)]
     simp
 
+theorem runFrom_append_skip : ∀ (a b : Op) (st : D) (k e : Nat), nFaultPoints a ≤ k →
+    runFrom (a ++ b) st (some (k, e)) = runFrom b (st + total a) (some (k - nFaultPoints a, e)) := by
+  intro a
+  induction a with
+  | nil => intro b st k e _; simp [total, nFaultPoints, D.add_zero]
+  | cons s rest ih =>
+    intro b st k e hk
+    cases hf : s.fault with
+    | none =>
+      simp only [nFaultPoints, hf, Option.isSome_none, Bool.false_eq_true, if_false, Nat.zero_add] at hk ⊢
+      simp only [List.cons_append, runFrom, hf, total, ih b _ k e hk, D.add_assoc]
+    | some kind =>
+      simp only [nFaultPoints, hf, Option.isSome_some, if_true] at hk ⊢
+      cases k with
+      | zero => omega
+      | succ k =>
+        have hk' : nFaultPoints rest ≤ k := by omega
+        have e1 : k + 1 - (1 + nFaultPoints rest) = k - nFaultPoints rest := by omega
+        simp only [List.cons_append, runFrom, hf, total, ih b _ k e hk', D.add_assoc, e1]
+
+theorem spawnPairs_total (heap : Bool) : ∀ (n i : Nat),
+    total (spawnPairs heap n i) = ⟨0, 0, 2 * (n : Int), 0, 0, 0⟩ ∧ nFaultPoints (spawnPairs heap n i) = n := by
+  intro n
+  induction n with
+  | zero => intro i; exact ⟨rfl, rfl⟩
+  | succ n ih =>
+    intro i
+    obtain ⟨h1, h2⟩ := ih (i + 1)
+    refine ⟨?_, ?_⟩
+    · simp only [spawnPairs, total, h1]; apply D.ext <;> simp [net, Eff.delta] <;> omega
+    · simp only [spawnPairs, nFaultPoints, h2, Option.isSome_some, if_true]; omega
+
 /-! ### sequences -/
 
 theorem sumD_eraseIdx : ∀ (l : List D) (i : Nat) (d : D), l[i]? = some d → sumD l = d + sumD (l.eraseIdx i) := by
